@@ -63,6 +63,15 @@ class FakeManager:
         self.shutdown()
 
 
+def reset():
+    """Forget every manager: called at the start of each case so that ids (which end up in
+    pickled proxies, hence in file sizes) do not depend on the interpreter's history."""
+    for m in _REGISTRY.values():
+        m.shutdown()
+    _REGISTRY.clear()
+    _NEXT[0] = 0
+
+
 def shutdown_all(sim):
     for m in sim.managers:
         m.shutdown()
